@@ -96,10 +96,10 @@ PROPS["C07"] = {
                   "to_owned_surf reads in-window cells only and yields an owned surface of the window's size; view_mut/as_mut/iter_mut hand the same window on; SurfaceMutIter::nth's raw-pointer access is in bounds and never repeats an offset; "
                   "SurfaceOwned::new_with builds a surface that satisfies the invariant (base case) and the real shape()/data()/data_mut() of SurfaceOwned, SurfaceView and SurfaceMutView discharge the trait contract, so the defaults apply to them. "
                   "The ViewBounds trait contract assumed there is proved for all 61 impls (Kani, complete). insert/map and forwarding impls only through the bounded twin.",
-    "level_note": "Assumed: the raw pointer dereference itself, &/&mut/Arc/Box forwarding impls, Clone/Default of items, hash; preconditions index+n+1 <= usize::MAX on nth and buffer length <= isize::MAX.",
+    "level_note": "Assumed: the raw pointer dereference itself, &/&mut/Arc/Box forwarding impls, Clone/Default of items, hash; buffer length <= isize::MAX.",
     "assumptions": [
         "surfaces are built from SurfaceOwned/Shape::from and view/transpose (SurfaceView::new with an arbitrary Shape is outside the domain)",
-        "slice length <= isize::MAX (Rust allocation invariant); Iterator::nth is called with index + n + 1 <= usize::MAX",
+        "slice length <= isize::MAX (Rust allocation invariant)",
         "SurfaceMut::insert (iterator zip), Surface::map (its closure captures the caller's `mut f`: unsupported), Surface::hash; which value fill_with stores where (FnMut ensures cannot be accumulated across calls in Verus: only its frame is proved), `impl SurfaceMut for SurfaceMutView`, SurfaceOwnedView and the &/&mut/Arc/Box forwarding impls: not under Verus contract; the bounded Kani twin (3x4 surface, incl. depth-2 chains in the thorough tier) exercises insert/iter/get through nested and transposed views",
     ],
 }
